@@ -36,6 +36,20 @@ def check(an: Analysis) -> None:
 
     # ------------------------------------------------------------------ C18.1 arguments / result transparency
     ob = an.ob("C18.1", "K5", "every wrapper passes exactly (*args, **kwargs) (+ receiver) to the wrapped function and returns its result", [f"{EW}.__call__", f"{EW}.__method_call__", "helpers.asynchrony.wrap_async.async_function", "helpers.tracing._traced_sync.traced", "helpers.tracing._traced_async.traced"])
+    # the caller's **kwargs may carry any key: forwarding them into a helper next to named parameters collides
+    for f in [x for x in prog.scan_functions() if x.module.name.startswith("haiway.helpers.")]:
+        va, kwa = vararg_names(f)
+        if kwa is None:
+            continue
+        for c in [c for c in f.own_nodes() if isinstance(c, ast.Call) and any(k.arg is None and is_name(k.value, kwa) for k in c.keywords)]:
+            t = prog.functions.get(an.callee(f, c) or "")
+            if t is None:
+                continue
+            ob.inst(f, c, f"forwards **{kwa} into {t.short}")
+            ta = t.node.args
+            named = [p.arg for p in ta.args + ta.kwonlyargs]
+            if named:
+                ob.fail(f, c, f"the caller's **{kwa} are forwarded into {t.short} next to its named parameter(s) {named}: a caller keyword of that name collides (TypeError: multiple values) or is captured, and the wrapped function never sees it")
     for name, is_method in ((f"{EW}.__call__", False), (f"{EW}.__method_call__", True)):
         f = prog.fn(name)
         va, kwa = vararg_names(f)
@@ -52,6 +66,8 @@ def check(an: Analysis) -> None:
         dfn = Deps(prog, f)
         for r in rets:
             v = unwrap(r.value)
+            if isinstance(v, ast.Name) and (sv := dfn.single_value(v.id)) is not None:
+                v = unwrap(sv)  # `result = await ...; return result`
             if not (isinstance(v, ast.Await) and dfn.origins(v.value) == {"call:asyncio.AbstractEventLoop.run_in_executor"}):
                 ob.fail(f, r, "the awaited executor result (value or exception) is not what the wrapper returns")
         if not rets:
@@ -192,8 +208,55 @@ def check(an: Analysis) -> None:
     for c in [c for c in tr.own_nodes() if isinstance(c, ast.Call) and an.callee(tr, c) in (prog.fn("helpers.tracing._traced_sync").qualname, prog.fn("helpers.tracing._traced_async").qualname)]:
         ob.inst(tr, c)
         lab = next((k.value for k in c.keywords if k.arg == "label"), None)
+        if lab is None and len(c.args) > 1:
+            lab = c.args[1]
+        lab = Deps(prog, tr).inline(lab) if lab is not None else None
         if not (c.args and is_name(c.args[0], "function") and isinstance(lab, ast.Attribute) and lab.attr == "__name__" and is_name(lab.value, "function")):
             ob.fail(tr, c, "traced does not name the scope after the function")
+
+    # dispatch: in debug mode traced wraps; coroutine functions get the async wrapper, others the sync one
+    gtr = an.cfg(tr)
+    dtr = Deps(prog, tr)
+    from ..kinds import NOVALUE as _NV2
+    from ..kinds import Scenario as _Scn2
+
+    for is_coro in (True, False):
+
+        def base(e: ast.AST, is_coro=is_coro):
+            if is_name(e, "__debug__"):
+                return True
+            if isinstance(e, ast.Call) and an.callee(tr, e) == "asyncio.iscoroutinefunction":
+                return is_coro
+            return _NV2
+
+        sc = _Scn2(gtr, dtr, base)
+        live = [n for n in gtr.nodes if n.kind == "return" and n.id in sc.reach]
+        want = prog.fn("helpers.tracing._traced_async" if is_coro else "helpers.tracing._traced_sync").qualname
+        for r in live:
+            v = unwrap(r.ast.value)  # type: ignore[union-attr]
+            if not (isinstance(v, ast.Call) and an.callee(tr, v) == want):
+                ob.fail(tr, r.ast, f"in debug mode traced() does not wrap a{' coroutine' if is_coro else ' plain'} function with the {'async' if is_coro else 'sync'} tracing wrapper")
+        if not live:
+            ob.fail(tr, None, "traced() has no return in debug mode")
+    for cname, fields in (("helpers.tracing.ArgumentsTrace", ("args", "kwargs")), ("helpers.tracing.ResultTrace", ("result",))):
+        ci = prog.cls(cname)
+        ofs = ci.methods.get("of", [])
+        if not ofs:
+            ob.fail(None, ci.node, f"{ci.name}.of is gone", mod=ci.module, at=ci.qualname)
+        for of in ofs[:1]:  # the `if __debug__:` variant comes first
+            for r in [r for r in of.own_nodes() if isinstance(r, ast.Return)]:
+                ob.inst(of, r)
+                v = unwrap(r.value)
+                kws = {k.arg: k.value for k in v.keywords} if isinstance(v, ast.Call) else {}
+                dof = Deps(prog, of)
+                ok = isinstance(v, ast.Call) and is_name(v.func, "cls") and set(kws) == set(fields)
+                if ok:
+                    params = of.param_names()[1:]
+                    for fld, pname in zip(fields, params):
+                        if f"param:{pname}" not in dof.of(kws[fld]):
+                            ok = False
+                if not ok:
+                    ob.fail(of, r, f"{ci.name}.of does not build the trace from what it was given (in debug mode)")
 
     # ------------------------------------------------------------------ C18.5 every wrapper mimics the wrapped function
     ob = an.ob("C18.5", "K1 provenance", "every wrapper produced by the public decorators (wrapper classes storing the function; nested defs calling it; bound-method partials) is passed through mimic_function/_mimic_async(function, within=<wrapper>) or decorated with @mimic_function(function)")
@@ -296,6 +359,27 @@ def check(an: Analysis) -> None:
                 ob.inst(fn_, r, f"{pub}: returns {kind}")
                 if kind in ("none", "other"):
                     ob.fail(fn_, r, f"the `{pub}` decorator hands back `{stmt_text(r.value) if r.value is not None else 'None'}` instead of a wrapper of the decorated function")
+        # coroutine functions get the async wrapper, plain ones the sync wrapper
+        for wf in wraps_:
+            gwf = an.cfg(wf)
+            dwf = Deps(prog, wf)
+            tests = [n for n in gwf.nodes if n.kind == "test" and isinstance(n.ast, ast.Call) and an.callee(wf, n.ast) == "asyncio.iscoroutinefunction"]
+            if not tests or pub in ("throttle", "asynchronous"):
+                continue
+            for is_coro in (True, False):
+
+                def base2(e: ast.AST, is_coro=is_coro):
+                    if isinstance(e, ast.Call) and an.callee(wf, e) == "asyncio.iscoroutinefunction":
+                        return is_coro
+                    return _NV
+
+                sc2 = _Scn(gwf, dwf, base2)
+                for r in [n for n in gwf.nodes if n.kind == "return" and n.id in sc2.reach]:
+                    v = unwrap(r.ast.value)  # type: ignore[union-attr]
+                    name = (an.callee(wf, v) or "") if isinstance(v, ast.Call) else ""
+                    is_async_wrapper = "async" in name.rsplit(".", 1)[-1].lower()
+                    if name and is_async_wrapper != is_coro:
+                        ob.fail(wf, r.ast, f"`{pub}` wraps a {'coroutine' if is_coro else 'plain'} function with the {'async' if is_async_wrapper else 'sync'} wrapper")
         if fparam is not None and wraps_:
             gd = an.cfg(dfn)
             ddec = Deps(prog, dfn)
